@@ -78,6 +78,7 @@ type Contract struct {
 	Trusted       bool // extern/interface: assumed, not verified
 	Sig           *types.Signature
 	RecvNonNil    bool
+	Witnesses     []map[string]string // replay seeds: param -> Go literal (string or int)
 }
 
 type GhostUpdate struct {
@@ -268,7 +269,7 @@ var clauseKeywords = map[string]bool{
 	"lemma": true, "requires": true, "ensures": true, "top-ensures": true, "modifies": true, "allocates": true,
 	"panics": true, "abstract": true, "nosafety": true, "loop": true, "invariant": true, "top-invariant": true,
 	"decreases": true, "assert": true, "alias": true, "props": true, "recvnonnil": true, "ghostset": true,
-	"end": true, "opaque": true,
+	"end": true, "opaque": true, "witness": true,
 }
 
 // parseContractFile reads the //@ lines of one file.
@@ -414,6 +415,17 @@ func (p *contractParser) line(t string, no int) error {
 		c.RecvNonNil = true
 	case "alias":
 		c.ResultAlias = rest
+	case "witness":
+		// witness a = "text", n = 5
+		wm := map[string]string{}
+		for _, part := range splitTopLevel(rest, ",") {
+			kv := strings.SplitN(part, "=", 2)
+			if len(kv) != 2 {
+				return fmt.Errorf("witness needs name = literal")
+			}
+			wm[strings.TrimSpace(kv[0])] = strings.TrimSpace(kv[1])
+		}
+		c.Witnesses = append(c.Witnesses, wm)
 	case "props":
 		c.Props = append(c.Props, strings.Fields(strings.ReplaceAll(rest, ",", " "))...)
 	case "loop":
